@@ -42,6 +42,8 @@ type c34State struct {
 	pool   []poolKey
 	vals   map[int]reflect.Value
 	st     *execStats
+	// held is the map an earlier GetOrCreate<List>Map call returned: the caller's handle on the list
+	held reflect.Value
 }
 
 func (s *c34State) lm() reflect.Value { return s.parent.Elem().Field(s.t.Field) }
@@ -117,6 +119,14 @@ func (s *c34State) check(after string) *Violation {
 	}
 	if afterN != before {
 		return violation("C34", "model-mismatch", sigp+"get-creates", "after %s: Get changed the number of entries from %d to %d", after, before, afterN)
+	}
+	// a handle on the list obtained from GetOrCreate<List>Map stays the list: no helper swaps
+	// the map for another one behind the holder's back
+	if s.held.IsValid() {
+		s.st.Probes["held_map_checked"]++
+		if l := s.lm(); l.IsNil() || l.Pointer() != s.held.Pointer() {
+			return violation("C34", "retention", sigp+"held-map", "after %s: the map GetOrCreate%sMap returned earlier is no longer the list's map (entries added now are invisible through it)", after, s.t.FieldName)
+		}
 	}
 	// each entry's key leaves equal its map key
 	m := model.Walk(s.root.Interface(), s.t.Pkg.Schema().RootSchema(), "")
@@ -329,6 +339,7 @@ func c34Apply(s *c34State, op Op) *Violation {
 		if a.IsNil() || s.lm().IsNil() || a.Pointer() != s.lm().Pointer() {
 			return violation("C34", "model-mismatch", sigp+"getorcreatemap", "GetOrCreate%sMap does not install/return the list map", t.FieldName)
 		}
+		s.held = a
 	case "get":
 		// exercised for every pool key by check()
 	case "nilrecv-get":
